@@ -55,6 +55,21 @@ def run(tier):
             check.violation({"class": "observer-" + r["what"], "op": r["op"],
                              "after": sorted(set(prior))},
                             {"task": t, "observed": r})
+    # the outputs must not depend on what the process did before either: a sample of the tasks is repeated, each in a process
+    # of its own, and every observer's output is compared with the one obtained in the long-lived worker
+    idx = [i for i, r in enumerate(res) if r.get("ok")]
+    nsample = 150 if tier == "quick" else 2000
+    heavy = [i for i in idx if "namespace {" in tasks[i]["src"] and "resolve" in tasks[i]["hist"]]
+    idx = rng.sample(heavy, min(len(heavy), nsample // 2)) + rng.sample(idx, min(len(idx), nsample // 2))
+    # resolver-heavy files first: they are the ones that can leave something behind
+    cold = core.WorkerPool(core.build_worker(), chunk=1, fresh=True).run([dict(tasks[i]) for i in idx])
+    for i, rc in zip(idx, cold):
+        check.count()
+        if rc.get("ok") and rc.get("outs") != res[i].get("outs"):
+            ops = sorted(o for o in rc["outs"] if rc["outs"][o] != (res[i].get("outs") or {}).get(o))
+            check.violation({"class": "output-depends-on-process-history", "op": ops[0] if ops else None},
+                            {"task": tasks[i], "fresh_process": rc.get("outs"), "long_lived_process": res[i].get("outs")})
+    check.cov["tasks_repeated_in_fresh_processes"] = len(idx)
     check.cov["traces_validated_against_impl"] = ran
     check.cov["histories"] = len(hs)
     check.cov["programs"] = len(progs)
